@@ -104,7 +104,9 @@ impl TextArchive {
 
         let mut archive = BinArchive::new(self.endian);
         archive.allocate_at_end(bytes.len());
-        archive.write_bytes(0, &bytes)?;
+        if !bytes.is_empty() {
+            archive.write_bytes(0, &bytes)?;
+        }
         for (label, address) in label_info {
             archive.write_label(address, label)?;
         }
